@@ -127,6 +127,9 @@ TrClientNew ==
                           <<"C15.draw.PrivateKey", dok>>,
                           <<"C03.A", e.res.kind = "ok" => (out'.kind = "ok" /\ e.res.A = out'.A)>>,
                           <<"C03.M1", e.res.kind = "ok" => (out'.kind = "ok" /\ e.res.M1 = out'.M1)>>,
+                          \* built-in group: any B other than k*v is the key of an honest server for some b (7 generates
+                          \* every residue), and that server accepts this client iff its proof is the specification's
+                          <<"C01.honestClient", (e.N = SrvN /\ e.g = SrvG /\ e.res.kind = "ok" /\ out'.kind = "ok") => e.res.M1 = out'.M1>>,
                           \* where the specification produces values the client must produce them (not give up)
                           <<"C03.produced", out'.kind = "ok" => e.res.kind = "ok">>,
                           <<"C04.ownA", (e.res.kind = "ok") = (out'.kind = "ok")>> >>,
